@@ -4,8 +4,10 @@ import driver
 
 def run(ctx):
     b = ctx.build("internal/zzverif/c10")
-    n = 1 if ctx.replay else 16
-    ctx.run_shards(b, "TestVerifC10", n, 600 if ctx.tier == "quick" else 3000, "c10")
+    if ctx.replay:
+        ctx.run_shards(b, "TestVerifC10", 1, 600, "c10")
+    else:
+        driver.run_scaled(ctx, b, "TestVerifC10", 16, 3000, "c10")
     return driver.finish(
         ctx, "exploration",
         "each case forms one server response (Version, SetOptions, Packet {no data, data, error}, downstream-codec probe, "
